@@ -356,6 +356,38 @@ def run_case(case):
                     L0 = build_laplacian(mesh)[0].toarray()
                     if rel(ops.psi_laplacian.toarray() - L0, L0) > tol or float(np.abs(ops.psi_laplacian.toarray() @ np.ones(n)).max()) > 1e-10 * float(np.abs(L0).max()):
                         res.violate("refreshed-zero-potential-differs-from-scalar-laplacian", areas="one", duals="refreshed", holder=cfg, detail=dict(det, history=seq))
+    if case.get("history") == "smoothed_derived" or case["areas"] == "rnd":
+        # a sequence of short-lived meshes with one topology and changing geometry (a parameter scan): each is built, used
+        # and dropped before the next one exists, so objects are re-created at recycled addresses
+        import gc
+
+        from tdgl.finite_volume import Mesh
+
+        sites0, elems = np.array(base.sites), np.array(base.elements)
+        hmin = float(base.edge_mesh.edge_lengths.min())
+        interior = np.setdiff1d(np.arange(n), np.asarray(base.boundary_indices))
+        bad = None
+        for it in range(24):
+            jit = np.zeros_like(sites0)
+            jit[interior] = 0.08 * hmin * np.random.default_rng([case["seed"], 77, it]).uniform(-1, 1, (len(interior), 2))
+            try:
+                msh = Mesh.from_triangulation(sites0 + jit, elems)
+            except ValueError:
+                continue
+            Dj = build_divergence(msh).toarray()
+            Gj = build_gradient(msh).toarray()
+            Lj = build_laplacian(msh)[0].toarray()
+            rmj = RawMesh.from_mesh(msh)
+            fj = np.random.default_rng([case["seed"], 78, it]).normal(size=m)
+            wantj = rmj.outflow(fj) / msh.areas
+            res.count("short_lived_meshes")
+            if float(np.abs(Dj @ fj - wantj).max()) > tol * max(float(np.abs(wantj).max()), 1e-300) or float(np.abs(Lj - Dj @ Gj).max()) > tol * float(np.abs(Lj).max()):
+                bad = it
+                break
+            del msh, Dj, Gj, Lj, rmj
+            gc.collect()
+        if bad is not None:
+            res.violate("operators-of-a-short-lived-mesh-belong-to-another-mesh", detail=dict(det, iteration=bad))
     res.nontrivial = len(base.boundary_indices) < n
     res.outcome = "ok"
     return res
